@@ -443,6 +443,8 @@ Definition max_tsbd : Z := 48 * 3600.
 (** verifyAndFillConfig *)
 Definition verify_and_fill (c : cfg) (nowMS : Z) : res cfg :=
   if nowMS <? 0 then Err "nowMS must be >= 0"
+  else if fx_stop_order fx && match c_stopS c with Some st => st <? c_startS c | None => false end
+  then Err "is before start time"
   else if fx_snr fx && match c_startNr c with Some n => (maxu32 <? n) || (n <? -2147483648) | None => false end
   then Err "snr must be"
   else if c_segTimelineNr c && c_segTimeline c then Err "cannot be used at same time"
